@@ -75,7 +75,34 @@ pub fn rand_name(rng: &mut Rng) -> String {
 }
 
 /// Characters the Shift-JIS encoder cannot encode at all (`to_shift_jis` must refuse the string).
-pub const UNENCODABLE: [&str; 5] = ["\u{00E9}", "\u{2713}", "\u{1F600}", "\u{20AC}", "\u{00FC}"];
+pub const UNENCODABLE: [&str; 7] =
+    ["\u{00E9}", "\u{2713}", "\u{1F600}", "\u{20AC}", "\u{00FC}", "\u{010A}", "\u{0100}"];
+/// Code points outside the sub-codec that real Shift-JIS may encode (kanji / full-width forms whose
+/// low byte looks like a special ASCII byte: '\n', '\\', NUL, 'n').  The model cannot encode them
+/// (correspondence skip); the oracle demands refusal or an exact round trip.
+pub const FOREIGN: [&str; 6] = ["\u{4E0A}", "\u{300A}", "\u{FF0A}", "\u{4E5C}", "\u{4E00}", "\u{4E6E}"];
+pub const COUNTS: [usize; 18] = [0, 1, 2, 7, 8, 9, 15, 16, 17, 31, 32, 33, 63, 64, 65, 127, 128, 129];
+
+/// An in-alphabet, NUL-free string of exactly `k` Shift-JIS bytes (single- and double-byte mixed).
+pub fn sized_name(rng: &mut Rng, k: usize) -> String {
+    let mut s = String::new();
+    let mut left = k;
+    while left > 0 {
+        if left >= 2 && rng.chance(1, 3) {
+            let t = &crate::subcodec::TABLE[1 + rng.below(12) as usize];
+            s.push(char::from_u32(rng.range(t.0 as u64, t.1 as u64) as u32).unwrap());
+            left -= 2;
+        } else {
+            if rng.chance(1, 8) {
+                s.push(char::from_u32(rng.range(0xFF61, 0xFF9F) as u32).unwrap());
+            } else {
+                s.push(char::from_u32(rng.range(0x21, 0x7E) as u32).unwrap());
+            }
+            left -= 1;
+        }
+    }
+    s
+}
 /// Code points Shift-JIS encodes lossily (\u{00A5} -> 0x5C, \u{203E} -> 0x7E, \u{2212} -> U+FF0D): outside the
 /// property's quantifier; the model cannot predict the bytes (correspondence skip, oracle skip).
 pub const LOSSY: [&str; 3] = ["\u{00A5}", "\u{203E}", "\u{2212}"];
@@ -234,10 +261,9 @@ pub fn gen(seed: u64, tier: &str) -> Vec<String> {
     let mut rng = Rng::new(seed ^ 0xC17);
     let thorough = tier == "thorough";
     let mut lines = Vec::new();
-    let mut n = 0;
-    let mut push = |lines: &mut Vec<String>, meta: &Name, clip: &[Name], sets: &[Vec<Name>]| {
+    let push = |lines: &mut Vec<String>, meta: &Name, clip: &[Name], sets: &[Vec<Name>]| {
+        let n = lines.len();
         lines.push(line(n, meta, clip, sets));
-        n += 1;
     };
     // fixed corner cases
     let none_table: Vec<Name> = vec![None; 257];
@@ -294,7 +320,7 @@ pub fn gen(seed: u64, tier: &str) -> Vec<String> {
     // strings outside the codec's domain, in every string-bearing position (0 meta, 1 clip name,
     // 2 slot name, 3 set label) x placement of the offending character (last, first, middle, only):
     // `serialize` must refuse them — or, if it accepts, re-read exactly the value (oracle).
-    let mut planted = |rng: &mut Rng, lines: &mut Vec<String>, position: usize, bad: String| {
+    let planted = |rng: &mut Rng, lines: &mut Vec<String>, position: usize, bad: String| {
         let mut meta: Name = if rng.chance(1, 2) { Some(rand_name(rng)) } else { None };
         let mut t = rand_table(rng, 257);
         let nsets = rng.range(1, 2) as usize;
@@ -325,6 +351,95 @@ pub fn gen(seed: u64, tier: &str) -> Vec<String> {
             let placement = rng.below(4) as usize;
             let bad = plant(&mut rng, c, placement);
             planted(&mut rng, &mut lines, position, bad);
+        }
+    }
+    // code points outside the sub-codec that real Shift-JIS may encode (model: correspondence skip)
+    for (k, c) in FOREIGN.iter().enumerate() {
+        let placement = rng.below(4) as usize;
+        let bad = plant(&mut rng, c, placement);
+        planted(&mut rng, &mut lines, k % 4, bad);
+    }
+    // files without any text string: labels drawn from {None, Some("")} in every combination for
+    // 1..=4 sets (the empty label name is then the very last byte of the image); the same with
+    // exactly one string somewhere (control)
+    let none_set: Vec<Name> = vec![None; 257];
+    for nsets in 1..=4usize {
+        for mask in 0..(1u32 << nsets) {
+            if !thorough && nsets == 4 && mask % 3 != 1 {
+                continue;
+            }
+            let sets: Vec<Vec<Name>> = (0..nsets)
+                .map(|k| {
+                    let mut s = none_set.clone();
+                    if mask & (1 << k) != 0 {
+                        s[0] = Some(String::new());
+                    }
+                    s
+                })
+                .collect();
+            push(&mut lines, &None, &none_table, &sets);
+            if thorough || mask % 2 == 1 {
+                // control: exactly one string somewhere
+                let mut meta: Name = None;
+                let mut t = none_table.clone();
+                let mut sets2 = sets.clone();
+                let one = if rng.chance(1, 3) { String::new() } else { nonempty_name(&mut rng) };
+                match rng.below(3) {
+                    0 => meta = Some(one),
+                    1 => t[*rng.pick(&[0usize, 100, 256])] = Some(one),
+                    _ => sets2[rng.below(nsets as u64) as usize][*rng.pick(&[1usize, 256])] = Some(one),
+                }
+                push(&mut lines, &meta, &t, &sets2);
+            }
+        }
+    }
+    // every string length 0..=130 (encoded bytes) in every string-bearing position:
+    // clip names and slot names in one file each, labels over 131 all-absent sets, meta over 131
+    // minimal files (thorough; quick keeps a handful of meta lengths)
+    {
+        let mut t = none_table.clone();
+        for k in 0..=130usize {
+            t[k * 257 / 131] = Some(sized_name(&mut rng, k));
+        }
+        push(&mut lines, &None, &t, &[]);
+        let mut s1 = none_set.clone();
+        let mut s2 = none_set.clone();
+        for k in 0..=130usize {
+            s1[1 + k] = Some(sized_name(&mut rng, k));
+            s2[256 - k] = Some(sized_name(&mut rng, k));
+        }
+        push(&mut lines, &None, &none_table, &[s1, s2]);
+        let labelled: Vec<Vec<Name>> = (0..=130usize)
+            .map(|k| {
+                let mut s = none_set.clone();
+                s[0] = Some(sized_name(&mut rng, k));
+                s
+            })
+            .collect();
+        push(&mut lines, &None, &none_table, &labelled);
+        for k in 0..=130usize {
+            if thorough || k < 6 || [7, 8, 9, 15, 16, 17, 31, 32, 33, 63, 64, 65, 127, 128, 129, 130].contains(&k) {
+                let m = sized_name(&mut rng, k);
+                push(&mut lines, &Some(m), &none_table, &[]);
+            }
+        }
+    }
+    // numbers of sets at the count thresholds (all-absent or single-slot sets, optional labels)
+    for (i, n) in COUNTS.iter().enumerate() {
+        if thorough || i % 3 == (seed % 3) as usize || *n >= 127 {
+            let sets: Vec<Vec<Name>> = (0..*n)
+                .map(|k| {
+                    let mut s = none_set.clone();
+                    if k % 3 == 0 {
+                        s[0] = Some(rand_name(&mut rng));
+                    }
+                    if k % 5 == 1 {
+                        s[1 + (k * 37) % 256] = Some(rand_name(&mut rng));
+                    }
+                    s
+                })
+                .collect();
+            push(&mut lines, &None, &none_table, &sets);
         }
     }
     // long strings (size thresholds; `from_bytes` reads strings and labels through the cursor
